@@ -141,6 +141,36 @@ SvdS(m, n, dv) == LET k == Min(m, n) IN
           [] dv = 2 -> 0
           [] dv = 3 -> 3 * ((t * 7 + H(0, m + n, 63)) % k)])    \* a permutation of 0,3,..: unsorted, one zero
 
+(* Path-selection model of Dgesvd (the comments "Path 1" .. "Path 10" and "Path 1t" .. "Path 10t" of *)
+(* dgesvd.go; 11..20 stand for 1t..10t).  The QR-first (LQ-first) paths are taken when the long   *)
+(* dimension is at least Mnthr = Ilaenv(6) = floor(1.6 * min(m, n)); which of them depends on the *)
+(* jobs only (0 None, 1 Store, 2 All; paths 2, 3, 5, 8 need SVDOverwrite, which gonum documents   *)
+(* as not coded).  GesvdFast is the workspace length from which paths 4, 6, 7, 9 (and their       *)
+(* transposes) copy the triangular factor into the workspace ("sufficient workspace for a fast    *)
+(* algorithm"); 0 for the other paths.  Neither is ever a verdict: the model only labels which    *)
+(* combinations were executed and is checked for totality and reachability on the emitted shapes  *)
+(* (PathCover in PlantedSpectralLemmas).                                                          *)
+Mnthr(m, n) == (16 * Min(m, n)) \div 10
+GesvdPath(m, n, ju, jv) ==
+  IF Min(m, n) = 0 THEN 0
+  ELSE IF m >= n
+       THEN (IF m >= Mnthr(m, n)
+             THEN (IF ju = 0 THEN 1 ELSE IF ju = 1 THEN (IF jv = 0 THEN 4 ELSE 6) ELSE (IF jv = 0 THEN 7 ELSE 9))
+             ELSE 10)
+       ELSE (IF n >= Mnthr(m, n)
+             THEN (IF jv = 0 THEN 11 ELSE IF jv = 1 THEN (IF ju = 0 THEN 14 ELSE 16) ELSE (IF ju = 0 THEN 17 ELSE 19))
+             ELSE 20)
+GesvdFast(m, n, path) ==
+  LET k == Min(m, n) IN
+  IF path \in {4, 6, 14, 16} THEN k * k + 5 * k
+  ELSE IF path \in {7, 9, 17, 19} THEN k * k + Max(m + n, 5 * k)
+  ELSE 0
+GesvdPaths(m, n) == Fn([t \in 1 .. 9 |-> LET ju == (t - 1) \div 3
+                                             jv == (t - 1) % 3
+                                             p == GesvdPath(m, n, ju, jv)
+                                         IN <<p, GesvdFast(m, n, p)>>])
+AllGesvdPaths == {1, 4, 6, 7, 9, 10, 11, 14, 16, 17, 19, 20}
+
 SvdInst(m, n, qv, dv, sc) ==
   LET k == Min(m, n)
       OU == Orth(m, Min(qv, QVmax(m)), 70)
@@ -161,7 +191,8 @@ SvdInst(m, n, qv, dv, sc) ==
       V |-> Fn([r \in 1 .. k |-> IF simple[r - 1] THEN Col(W, IdxOf(s, k, sd[r - 1]), n) ELSE <<>>]),
       gap |-> Fn([r \in 1 .. k |-> IF simple[r - 1]
                     THEN Min(sd[r - 1], MinSet(LAMBDA v : Abs(v - sd[r - 1]), vals \ {sd[r - 1]}, sd[r - 1])) ELSE 0]),
-      tol |-> <<30, Max(Max(m, n), 1), Max(Norm1(A, m, n), NormInf(A, m, n))>>]
+      tol |-> <<30, Max(Max(m, n), 1), Max(Norm1(A, m, n), NormInf(A, m, n))>>,
+      paths |-> GesvdPaths(m, n)]
 
 SvdCases == {[m |-> m, n |-> n, qv |-> qv, dv |-> dv, sc |-> sc] :
                m \in 0 .. Small, n \in 0 .. Small, qv \in {0, 2}, dv \in 0 .. 3, sc \in 0 .. 2}
